@@ -1,4 +1,5 @@
 import TantivyModel.Proofs.LockHist
+import TantivyModel.Proofs.LockFile
 /-!
 # C18 — At most one writer per index; the lock follows the writer's lifetime
 
@@ -220,5 +221,106 @@ theorem C18_live_counterexample :
               .acquire 1, .construct 1 true true]
     (final init h).writers.length = 2 ∧ (run init h).2.getLast? = some (.ok 1) ∧
     (step (final init h) (.rollbackTake 0)).2 = .panic := by decide
+
+/-! ### at most one live writer, over all lifecycles, from the extracted shape of `rollback` -/
+
+/-- the events the code can produce, given the extracted order inside `rollback`: when the
+replacement writer is built *before* the guard is taken out of `self`
+(`Gen.ROLLBACK_TAKES_GUARD_AFTER_NEW = 1`) a failing rollback is `rollbackFailedEarly` (nothing
+happens to the guard) and the guard-dropping `rollbackNew _ false` cannot occur -/
+def producible (rollbackTakesGuardAfterNew : Bool) (e : Ev) : Bool :=
+  if rollbackTakesGuardAfterNew then noFailedRollback e else true
+
+/-- **At most one live writer — every lifecycle.** For a code whose `rollback` takes the guard
+out of `self` only after the replacement writer was built, in EVERY history of creations (any
+handle / thread, valid or invalid arguments, failing or not), rollbacks (succeeding or failing),
+drops, `wait_merging_threads` and worker failures there is at most one live `IndexWriter` object,
+and it owns the lock. (No hypothesis on the history is left: it is the code shape, extracted
+into `Gen.ROLLBACK_TAKES_GUARD_AFTER_NEW`, that rules the bad event out. For the code as it is
+that constant is 0 and `C18_live_counterexample` applies.) -/
+theorem C18_live_le_one (h : List Ev) (hp : ∀ e ∈ h, producible true e = true) :
+    (final init h).writers.length ≤ 1 ∧
+    ∀ x ∈ (final init h).writers,
+      .writer x.id ∈ (final init h).guards ∨ .rolling x.id ∈ (final init h).guards :=
+  owned_final inv_init owned_init h (fun e he => by simpa [producible] using hp e he)
+
+/-- the same statement instantiated with the extracted constant: it speaks about the code as it
+is as soon as the extractor finds the repaired order in `rollback` -/
+theorem C18_live_le_one_of_extracted_shape (hshape : Gen.ROLLBACK_TAKES_GUARD_AFTER_NEW = 1) (h : List Ev)
+    (hp : ∀ e ∈ h, producible (Gen.ROLLBACK_TAKES_GUARD_AFTER_NEW == 1) e = true) :
+    (final init h).writers.length ≤ 1 := by
+  have : (Gen.ROLLBACK_TAKES_GUARD_AFTER_NEW == 1) = true := by simp [hshape]
+  rw [this] at hp
+  exact (C18_live_le_one h hp).1
+
+example : ∀ e ∈ [Ev.acquire 0, .construct 0 true true, .rollbackFailedEarly 0, .rollbackFailedEarly 0, .rollbackTake 0,
+    .rollbackNew 0 true, .kill 0, .acquire 1], producible true e = true := by decide
+example : (run init [.acquire 0, .construct 0 true true, .rollbackFailedEarly 0, .acquire 1, .rollbackTake 0, .rollbackNew 0 true]).2
+    = [.done, .ok 0, .ioErr, .lockBusy, .done, .ok 0] := by decide
+
+/-! ### the atomic test-and-set of `acquire`, from the extracted shape of the lock-file code -/
+
+open TantivyModel.LockFile in
+/-- **`acquire` is an atomic test-and-set — derived, not assumed, for the lock-file protocol.**
+If `open_write` tests and inserts under one write-lock guard and `try_acquire_lock` builds the
+guard only after `open_write` succeeded, then in every interleaving of any number of threads'
+`open_write` / guard construction / guard drops: at most one thread or guard holds the lock, one
+does iff the lock file exists, an `open_write` succeeds iff the file was absent, and a refused
+`open_write` changes nothing. -/
+theorem C18_acquire_test_and_set (sh : LockFile.Shape) (ha : sh.atomicOpen = true) (hg : sh.guardLate = true)
+    (h : List LockFile.Ev) (t : Nat) :
+    let s := LockFile.final sh h
+    LockFile.holders s ≤ 1 ∧ (s.file = true ↔ LockFile.holders s = 1) ∧
+    ((LockFile.step sh s (.openWrite t)).2 = .acquired ↔ s.file = false) ∧
+    (s.file = true → LockFile.step sh s (.openWrite t) = (s, .refused)) := by
+  intro s
+  obtain ⟨_, h2⟩ := LockFile.inv_final ha hg LockFile.init LockFile.inv_init h
+  have h2' : LockFile.holders s = (if s.file then 1 else 0) := h2
+  refine ⟨?_, ?_, ?_, ?_⟩
+  · split at h2' <;> omega
+  · cases hf : s.file <;> simp [hf] at h2' ⊢ <;> omega
+  · cases hf : s.file <;> simp [LockFile.step, ha, hf]
+  · intro hf
+    simp [LockFile.step, ha, hf, LockFile.refuse, hg]
+
+/-- **The lock-file `open_write` refines the abstract `acquire`.** Whenever the lock-file state and
+the abstract lock state agree (file exists ⇔ lock held, same number of holders / guard objects), an
+`open_write` by thread `t` and the abstract `acquire t` give corresponding outcomes (`acquired` ⇔
+`done`, `refused` ⇔ `lockBusy`) and agreeing states again — so every theorem about `Model/Lock.lean`
+speaks about the lock-file implementation. -/
+theorem C18_acquire_refines (sh : LockFile.Shape) (ha : sh.atomicOpen = true) (hg : sh.guardLate = true)
+    (fs : LockFile.St) (ls : Lock.St) (t : Nat)
+    (hfile : fs.file = ls.held) (hcount : LockFile.holders fs = ls.guards.length)
+    (hfresh : Owner.creating t ∉ ls.guards) :
+    ((LockFile.step sh fs (.openWrite t)).2 = .acquired ↔ (Lock.step ls (.acquire t)).2 = .done) ∧
+    ((LockFile.step sh fs (.openWrite t)).2 = .refused ↔ (Lock.step ls (.acquire t)).2 = .lockBusy) ∧
+    (LockFile.step sh fs (.openWrite t)).1.file = (Lock.step ls (.acquire t)).1.held ∧
+    LockFile.holders (LockFile.step sh fs (.openWrite t)).1 = (Lock.step ls (.acquire t)).1.guards.length := by
+  cases hh : ls.held <;>
+    simp [LockFile.step, Lock.step, ha, hg, hfile, hh, hfresh, LockFile.refuse, LockFile.succeed,
+      LockFile.holders] at hcount ⊢ <;> omega
+
+example : (LockFile.step ⟨true, true⟩ LockFile.init (.openWrite 3)).2 = .acquired
+    ∧ (Lock.step Lock.init (.acquire 3)).2 = .done := by decide
+
+/-- the code as it is now has both shapes (extracted), so its lock-file protocol is the atomic
+test-and-set that `Model/Lock.lean` takes `acquire` to be -/
+theorem C18_acquire_test_and_set_of_extracted_shape (h : List LockFile.Ev) :
+    LockFile.holders (LockFile.final LockFile.codeShape h) ≤ 1 :=
+  (C18_acquire_test_and_set LockFile.codeShape (by decide) (by decide) h 0).1
+
+example : (LockFile.run ⟨true, true⟩ LockFile.init [.openWrite 0, .openWrite 1, .mkGuard 0, .openWrite 2, .dropGuard, .openWrite 1]).2
+    = [.acquired, .refused, .done, .refused, .done, .acquired] := by decide
+
+/-- without the single critical section (test and insertion are two steps) two threads both see
+the file absent and both "create" it: two holders -/
+theorem C18_acquire_two_step_open_write_counterexample :
+    LockFile.holders (LockFile.final ⟨false, true⟩ [.check 0, .check 1, .insert 0, .insert 1]) = 2 := by decide
+
+/-- with the guard built before `open_write`, a refused attempt deletes the holder's lock file and
+the next attempt succeeds: two holders -/
+theorem C18_acquire_early_guard_counterexample :
+    (LockFile.run ⟨true, false⟩ LockFile.init [.openWrite 0, .openWrite 1, .openWrite 2]).2 = [.acquired, .refused, .acquired]
+    ∧ LockFile.holders (LockFile.final ⟨true, false⟩ [.openWrite 0, .openWrite 1, .openWrite 2]) = 2 := by decide
 
 end TantivyModel.C18
